@@ -403,6 +403,13 @@ def batch_frames(k):
     for m in range(k):
         n = (3, 2, 3)[m]
         vals = {'p': [3 - j + 10 * m for j in range(n)], 'q': [0.5 * j + m if (m, j) != (0, 1) else np.nan for j in range(n)], 'r': [-1 - j - m for j in range(n)]}
+        if m == 1:
+            # one member with a consolidated layout: a 2-column 2-D block next to 1-D / one-column 2-D blocks (block-wise reductions must not show)
+            from .common import frame_from
+            cols = [np.array(vals['p'], dtype=np.int64), np.array([7 * j - m for j in range(n)], dtype=np.int64), np.array(vals['q']), np.array(vals['r'], dtype=np.int64)]
+            f = frame_from([cols[0], cols[3], cols[2]], ((2, False), (1, True)), index=[f'r{j}' for j in range(n)], column_labels=['p', 'r', 'q'], name=MEMBERS[m])
+            out.append(f[['p', 'q', 'r']].rename(MEMBERS[m]) if False else f)
+            continue
         out.append(sf.Frame.from_dict(vals, index=[f'r{j}' for j in range(n)], name=MEMBERS[m]))
     return out
 
@@ -446,6 +453,13 @@ def batch_ops():
     both('sum1', lambda x: x.sum(axis=1))
     both('sum_noskip', lambda x: x.sum(skipna=False))
     both('mean_noskip1', lambda x: x.mean(axis=1, skipna=False))
+    both('mean1', lambda x: x.mean(axis=1))
+    both('median1', lambda x: x.median(axis=1))
+    both('mean0', lambda x: x.mean())
+    both('std1', lambda x: x.std(axis=1))
+    both('var0', lambda x: x.var())
+    both('prod1', lambda x: x.prod(axis=1))
+    both('all1', lambda x: (x > 0).all(axis=1))
     both('max', lambda x: x.max())
     both('min1', lambda x: x.min(axis=1))
     both('count', lambda x: x.count())
